@@ -62,7 +62,7 @@ Definition pv_lc (v : pv) : option (list (str * str)) :=
 Definition wf_lc (l : list (str * str)) : Prop := Forall (fun e => name_valid (fst e) = true) l.
 
 (** ** contents.plist: a dictionary glyph name -> file name, read into a BTreeMap *)
-Fixpoint bt_insert (k : str) (v : str) (l : list (str * str)) : list (str * str) :=
+Fixpoint bt_insert {A} (k : str) (v : A) (l : list (str * A)) : list (str * A) :=
   match l with
   | [] => [(k, v)]
   | (k', v') :: r => if str_ltb k k' then (k, v) :: l
@@ -81,7 +81,7 @@ Definition pv_ct (v : pv) : option (list (str * str)) :=
   | _ => None
   end.
 (** strictly ascending keys (the order of a BTreeMap) *)
-Fixpoint ssorted (l : list (str * str)) : Prop :=
+Fixpoint ssorted {A} (l : list (str * A)) : Prop :=
   match l with
   | [] => True
   | (k, _) :: r => (forall k', In k' (map fst r) -> str_ltb k k' = true) /\ ssorted r
@@ -89,10 +89,13 @@ Fixpoint ssorted (l : list (str * str)) : Prop :=
 Definition wf_ct (l : list (str * str)) : Prop := ssorted l /\ Forall (fun e => name_valid (fst e) = true) l.
 
 (** ** the three parts; the file content is the XML tree; the write options do not reach the tree *)
-Definition plist_part {O X} (to : X -> pv) (of : pv -> option X) (w : X -> Prop) : part node O X :=
+Definition plist_part_e {O X} (to : X -> pv) (of : pv -> option X) (w : X -> Prop) (e : X -> X -> Prop)
+  : part node O X :=
   {| enc := fun _ x => Some (plist_tree (to x));
      dec := fun n => obind (plist_value n) of;
-     wf := w; peq := eq |}.
+     wf := w; peq := e |}.
+Definition plist_part {O X} (to : X -> pv) (of : pv -> option X) (w : X -> Prop) : part node O X :=
+  plist_part_e to of w eq.
 Definition P_meta_real O : part node O meta := plist_part meta_pv pv_meta wf_meta.
 Definition P_lc_real O : part node O (list (str * str)) := plist_part lc_pv pv_lc wf_lc.
 Definition P_contents_real O : part node O (list (str * str)) := plist_part ct_pv pv_ct wf_ct.
